@@ -5,5 +5,6 @@ CONSTANTS
   Workers = 3
   Size <- SizeBig
   StartInJob = FALSE
+  DestroyWaits = TRUE
 INVARIANTS NoUseAfterDestroy CounterExact BestIsMin
 CHECK_DEADLOCK FALSE
